@@ -8,6 +8,7 @@ From Coq Require Import List NArith Bool.
 From FS Require Import Sx Model.Path Model.Stat Model.Tree Model.Walk Model.Validator Model.Hardlinks Model.Diff
   Model.AbsDest Model.ConvergeA Model.MetaOnly
   Proofs.Lex Proofs.PathP Proofs.ValidatorP Proofs.WalkP Proofs.WalkWfP Proofs.MetaLinksP.
+From FS Require Proofs.RefValidP.
 Import ListNotations.
 Open Scope bool_scope.
 
@@ -42,6 +43,15 @@ Theorem walked_hardlink_check_proof : hardlink_check (walk t) = None.
 Proof.
   destruct (walk_views_are_wf_proof cont t Hwf Hic Hco) as [[[Hs _] Hc] Efst].
   rewrite <- Efst. apply canon_hardlink_check_proof; assumption.
+Qed.
+(* the receiver's two stream validators accept the unfiltered walk of every well-formed tree:
+   C09 (order, parents first, clean paths, canonical links) is exactly what C12's order validator
+   and C11's hard-link validator demand *)
+Theorem walk_passes_validators_proof : valid_stream (walk t) /\ hardlink_check (walk t) = None.
+Proof.
+  split; [|exact walked_hardlink_check_proof].
+  destruct (walk_views_are_wf_proof cont t Hwf Hic Hco) as [[Hw _] Efst]. rewrite Efst in Hw.
+  exact (RefValidP.listing_passes_validator (walk t) Hw walk_ok_paths_proof).
 Qed.
 End MetaWalk.
 
